@@ -454,9 +454,6 @@ Qed.
 
 (* ---- the pinned code (Sample returns s) -------------------------------------------------------- *)
 
-Definition all_net : list (N * outcome) := [(0, NetErr); (1, NetErr); (2, NetErr); (3, NetErr)]%N.
-Definition all_500 : list (N * outcome) := [(0, OtherErr); (1, OtherErr); (2, OtherErr); (3, OtherErr)]%N.
-
 Lemma do_prefix_refuted : exists hosts sord iord oc,
   NoDup hosts /\ Permutation sord hosts /\ Permutation iord (sample_prefix tag_do_sample_size sord) /\
   3 < length (contacted (tag_do_prefix sord iord (oc_of oc))).
@@ -646,11 +643,6 @@ Proof.
     apply output_eqb_refl.
 Qed.
 
-(* the legality hypotheses on the two oracles, in one place *)
-Definition oracles_ok (i : input) (sord iord : list N) : Prop :=
-  NoDup (set_of i) /\ Permutation sord (set_of i) /\
-  match i with ISample _ _ => True | IReq k _ _ => Permutation iord (sample (sample_size k) sord) end.
-
 (* whatever order the maps were iterated in, the reconstruction reproduces the model's observables:
    the correspondence check cannot alarm because of map order *)
 Lemma recon_complete : forall i sord iord, oracles_ok i sord iord -> agrees i (run i sord iord) = true.
@@ -693,4 +685,20 @@ Proof.
       destruct (attempt_is_req sample is_err blob_locations_sample_size sord iord (oc_of ocl)) as [cs [ok E]].
       unfold blob_locations in *. rewrite E in *. cbn [contacted] in *.
       rewrite !andb_true_iff, nodupb_NoDup, subsetb_incl, Nat.leb_le. repeat split; assumption.
+Qed.
+
+Lemma output_eqb_eq : forall a b, output_eqb a b = true -> a = b.
+Proof.
+  intros [r1|c1 k1] [r2|c2 k2]; cbn; intros H; try discriminate.
+  - apply list_eqb_eq in H; congruence.
+  - apply andb_true_iff in H; destruct H as [H1 H2]. apply list_eqb_eq in H1. apply eqb_prop in H2. congruence.
+Qed.
+
+(* an observation the correspondence accepts satisfies the property: no-mismatch implies no-violation *)
+Lemma agrees_implies_check : forall i o, NoDup (set_of i) -> agrees i o = true -> C25_check i o = true.
+Proof.
+  intros i o Hs Ha. unfold agrees, agrees_with in Ha. apply andb_true_iff in Ha. destruct Ha as [Hl He].
+  apply output_eqb_eq in He. rewrite <- He. apply check_sound.
+  split; [exact Hs|]. split; [apply legal_perm; assumption|].
+  destruct i; [exact I | apply Permutation_refl].
 Qed.
